@@ -285,7 +285,8 @@ bool CellBounds(const vx::Cell& cell, int tier, vx::Bounds& b) {
   } else if (k == 3) {
     b.P = tier == 0 ? 2 : 3;
   } else {
-    b.P = r == 2 ? (tier == 0 ? 3 : 4) : (tier == 0 ? 3 : 99);
+    // calibrated: one round is ~8 k schedules with every interleaving; two rounds ~24 k at P=4, ~65 k at P=5, >1 M unbounded
+    b.P = r == 2 ? (tier == 0 ? 4 : 6) : 99;
   }
   b.S = 1;
   b.T = 0;
